@@ -6,7 +6,7 @@ from __future__ import annotations
 import random
 from .refsem import Obj
 from .refseq import ArrTy
-from .spec import U, BV, BIT
+from .spec import U, BV, BIT, Ty
 from .seqcheck import SeqProgram
 
 HEADER = '''from __future__ import annotations
@@ -107,6 +107,9 @@ def render(body_lines, reset="sync", ename="Seq", use_arr=False, locals_used=(),
         (["    pn = Port.output(Bit, default=False, noreset=True)"] if any("self.pn" in ln for ln in body_lines) else []) + [
               "    def architecture(self):",
               "        x = Variable[Unsigned[3]](Null, name='x')", "        y = Variable[Unsigned[3]](Null, name='y')"]
+    use_vb = any("vb" in ln.replace("ovb", "") for ln in body_lines)
+    if use_vb:
+        lines.append("        vb = Variable[bool](False, name='vb')")
     if use_arr:
         lines.append("        arr = Signal[Array[Unsigned[2], 4]](Null, name='arr')")
         lines.append("        ptr = Variable[Unsigned[2]](Null, name='ptr')")
@@ -117,7 +120,7 @@ def render(body_lines, reset="sync", ename="Seq", use_arr=False, locals_used=(),
     else:
         lines.append("        @std.sequential(std.Clock(self.clk))")
     lines.append("        def proc():")
-    lines.append("            nonlocal x, y" + (", ptr" if use_arr else ""))
+    lines.append("            nonlocal x, y" + (", ptr" if use_arr else "") + (", vb" if use_vb else ""))
     for ln in body_lines:
         lines.append("            " + ln)
     src = "\n".join(lines) + "\n"
@@ -131,6 +134,8 @@ def render(body_lines, reset="sync", ename="Seq", use_arr=False, locals_used=(),
     if use_arr:
         objs["arr"] = Obj("arr", ArrTy(U(2), 4), "signal", 0)
         objs["ptr"] = Obj("ptr", U(2), "var", 0)
+    if use_vb:
+        objs["vb"] = Obj("vb", Ty("bool"), "var", 0)
     if any("self.pn" in ln for ln in body_lines):
         objs["pn"] = Obj("pn", BIT, "out", 0, noreset=True)
     for n in locals_used:
@@ -291,6 +296,13 @@ CORE = [
     ["self.o2 <<= helper6(y, self.b, x, self.d, self.c)", "x @= y + 1"],
     ["self.o1 <<= helper7(self.o2, self.a, self.b, self.c, self.d)"],
     ["t = helper7(self.p, self.a, x, self.d, self.c)", "x @= t", "self.o1 <<= t"],
+    # assignments routed through std.assign / _assign_ with an explicit mode
+    ["if self.c:", "    std.assign(self.ob, self.d, cohdl.AssignMode.PUSH)", "std.assign(self.o1, self.a, cohdl.AssignMode.NEXT)"],
+    ["std.assign(x, self.a, cohdl.AssignMode.VALUE)", "if self.d:", "    std.assign(self.pv, self.a.bitvector, cohdl.AssignMode.PUSH)", "std.assign(self.o2, x)"],
+    # a truth value captured before the variable is reassigned keeps the OLD value (test-and-set)
+    ["old = bool(vb)", "vb @= self.c", "if old:", "    self.o1 <<= self.a", "self.ob <<= vb"],
+    ["old = bool(vb)", "vb.value = self.c and not self.d", "self.ob <<= old", "if vb:", "    self.o2 <<= self.b"],
+    ["t = bool(x == 3)", "x @= x + 1", "if t:", "    self.o1 <<= x"],
     # helper calls with side effects inside a test that folds to a constant: the side effects are part of the program
     ["if helper8(self.o1, self.a):", "    self.o2 <<= self.b"],
     ["if helper9(self.ob, x):", "    pass", "self.o1 <<= x"],
